@@ -572,8 +572,140 @@ pub fn phase_handshake(e: &E2e, addrs: &[u8], lost: u32, forget_err: bool) -> Ch
     Ok(())
 }
 
+/// C17 on the real loop: the classifier's verdicts as the housekeeping arm computes, stamps and publishes them
+/// (one `stats` event per tick, read through the in-process subscription hub). One link is made low-share (every
+/// packet it carries is NAKed, so its window walks to the floor) while SIGHUP reloads with an unchanged file
+/// arrive every 5 ticks; later it is black-holed and times out.
+pub fn phase_weak_stats(e: &E2e, addrs: &[u8]) -> CheckResult {
+    let victim = *addrs.last().unwrap();
+    let vip = crate::engine::shell::link_ip(victim).to_string();
+    let (tx, mut rx) = tokio::sync::mpsc::channel::<String>(512);
+    let rt = e.rt.as_ref().unwrap();
+    let sub = rt.block_on(e.hub.subscribe("stats", tx));
+    let mut seq = 100u32;
+    // (connected, weak, reason) of the victim, one entry per published tick
+    let mut ticks: Vec<(bool, bool, String)> = Vec::new();
+    // (share permille, threshold permille as published, connected links) per tick
+    let shares: std::cell::RefCell<Vec<(u64, u64, usize)>> = std::cell::RefCell::new(Vec::new());
+    let mut step = |e: &E2e, ticks: &mut Vec<(bool, bool, String)>, seq: &mut u32| {
+        for _ in 0..19 {
+            e.client_send(&client_datagram(*seq, 1316));
+            *seq += 1;
+        }
+        std::thread::sleep(Duration::from_millis(50));
+        while let Ok(line) = rx.try_recv() {
+            if let Ok(v) = serde_json::from_str::<Value>(&line)
+                && let Some(links) = v["params"]["data"]["links"].as_array()
+                && let Some(l) = links.iter().find(|l| l["ip"].as_str() == Some(vip.as_str()))
+            {
+                let n_conn = links.iter().filter(|x| x["connected"].as_bool() == Some(true)).count();
+                ticks.push((l["connected"].as_bool().unwrap_or(false), l["weak"].as_bool().unwrap_or(false), l["weak_reason"].as_str().unwrap_or("").to_string()));
+                shares.borrow_mut().push((l["weak_share_permille"].as_u64().unwrap_or(0), l["weak_threshold_permille"].as_u64().unwrap_or(0), n_conn));
+            }
+        }
+    };
+    let weak_while_down = |ticks: &[(bool, bool, String)]| -> CheckResult {
+        if let Some((i, t)) = ticks.iter().enumerate().find(|(_, t)| !t.0 && t.1) {
+            return viol("e2e-weak-while-disconnected", format!("real event loop: the statistics published at tick {i} show link {victim} disconnected and weak ({})", t.2));
+        }
+        Ok(())
+    };
+    // 1. warm up, then every packet the victim carries is reported lost
+    let t0 = e.ms();
+    while e.ms() < t0 + 1200 {
+        step(e, &mut ticks, &mut seq);
+    }
+    e.policy.lock().unwrap().nak_links.insert(victim);
+    let n0 = ticks.len();
+    let mut last_hup = ticks.len();
+    // 2. 21 ticks with a reload (unchanged list) every 5 ticks
+    e.write_ips(addrs);
+    let t1 = e.ms();
+    // watched until 17 ticks after the first low-share verdict (15 weak + the start of the probation)
+    let enough = |ticks: &[(bool, bool, String)]| ticks[n0..].iter().position(|t| t.1).is_some_and(|f| ticks.len() >= n0 + f + 17);
+    while !enough(&ticks) && e.ms() < t1 + 40_000 {
+        step(e, &mut ticks, &mut seq);
+        if ticks.len() >= last_hup + 5 {
+            last_hup = ticks.len();
+            e.sighup();
+        }
+    }
+    vensure!(enough(&ticks), "e2e-harness", "the link did not turn weak early enough to watch 17 ticks of it within 40 s ({} ticks seen)", ticks.len() - n0);
+    weak_while_down(&ticks)?;
+    let mut run = 0usize;
+    let mut longest = 0usize;
+    let mut weak_ticks = 0usize;
+    for t in &ticks[n0..] {
+        if t.0 && t.1 && (t.2 == "low_share" || t.2 == "no_traffic") {
+            run += 1;
+            weak_ticks += 1;
+            longest = longest.max(run);
+        } else {
+            run = 0;
+        }
+    }
+    if std::env::var_os("VERIF_E2E_TRACE").is_some() {
+        eprintln!("weakstats: victim {victim} ticks {:?}", ticks.iter().map(|t| format!("{}{}", if t.0 { 'c' } else { 'd' }, if t.1 { &t.2[..1] } else { "-" })).collect::<Vec<_>>().join(" "));
+        eprintln!("weakstats: shares {:?}", shares.borrow());
+    }
+    vensure!(weak_ticks >= 3, "e2e-harness", "the scenario did not make link {victim} low-share weak ({weak_ticks} weak ticks of {}); nothing to judge", ticks.len() - n0);
+    // leaving a low-share verdict needs three quarters of fair share (or the probation after 15 such verdicts)
+    {
+        let sh = shares.borrow();
+        let mut streak = 0usize;
+        for i in n0.max(1)..ticks.len().min(sh.len()) {
+            let was = &ticks[i - 1];
+            let was_share_weak = was.0 && was.1 && (was.2 == "low_share" || was.2 == "no_traffic");
+            if was_share_weak {
+                streak += 1;
+            }
+            let t = &ticks[i];
+            if was_share_weak && t.0 && !t.1 && t.2 != "bypassed" && streak < 15 {
+                let (share, _, n_conn) = sh[i];
+                let need = 750 / n_conn.max(1) as u64;
+                vensure!(
+                    share + 2 >= need,
+                    "e2e-left-weak-below-three-quarters",
+                    "real event loop: link {victim} left its low-share verdict at tick {i} after {streak} such ticks with a share of {share} permille; leaving needs {need} permille (3/4 of fair share with {n_conn} links) - reloads with an unchanged list arrive every 5 ticks"
+                );
+            }
+            if !was_share_weak {
+                streak = 0;
+            }
+        }
+    }
+    vensure!(longest <= 15, "e2e-share-weak-16", "real event loop: link {victim} was reported weak for low share / no traffic on {longest} consecutive ticks (reloads with an unchanged list arrived every 5 ticks); after 15 a three-tick probation is due");
+    // 3. the link is black-holed and the timeout lowered at run time: it is torn down while weak (a probation that
+    // is in progress is waited out first)
+    let t_w = e.ms();
+    while e.ms() < t_w + 8000 && !ticks.last().is_some_and(|t| t.0 && t.1) {
+        step(e, &mut ticks, &mut seq);
+    }
+    {
+        let mut pol = e.policy.lock().unwrap();
+        pol.muted.insert(victim);
+    }
+    let _ = dispatch(&e.config, Some(&e.stats), Some(&e.cw), r#"{"jsonrpc":"2.0","id":1,"method":"set_conn_timeout","params":{"ms":2000}}"#);
+    let t2 = e.ms();
+    while e.ms() < t2 + 9000 && ticks.last().is_none_or(|t| t.0) {
+        step(e, &mut ticks, &mut seq);
+    }
+    for _ in 0..30 {
+        step(e, &mut ticks, &mut seq);
+    }
+    weak_while_down(&ticks)?;
+    if ticks.last().is_some_and(|t| !t.0) {
+        // fine: torn down
+    } else {
+        return viol("e2e-harness", "the black-holed link was not torn down within 9 s (covered by the recovery phase)".to_string());
+    }
+    let _ = rt.block_on(e.hub.unsubscribe(&sub));
+    Ok(())
+}
+
 #[derive(Clone, Copy, PartialEq, Eq, Debug)]
 pub enum Phase {
+    WeakStats,
     ReloadEarly,
     Handshake,
     ModeTicks,
@@ -642,7 +774,13 @@ pub fn run(ctx: &Ctx, phase: Phase, scenarios: usize) {
             // recovery phases start with a 2 s timeout and raise it at run time (4 / 5 / 6 s): a loop that kept
             // using the start-up value would tear the link down early
             let recovery_timeout = 4000 + 1000 * ((z >> 24) % 3);
-            let timeout = if matches!(phase, Phase::Recovery | Phase::RecoveryEligibility) { 2000 } else { 5000 };
+            let timeout = if matches!(phase, Phase::Recovery | Phase::RecoveryEligibility) {
+                2000
+            } else if phase == Phase::WeakStats {
+                60_000
+            } else {
+                5000
+            };
             let cfg = DynamicConfig::from_cli(if classic { srtla_core::SchedulingMode::Classic } else { srtla_core::SchedulingMode::Enhanced }, (z >> 17) & 1 == 1, (z >> 18) & 1 == 1, 32, 3000, timeout);
             let lost_reg1 = 1 + ((z >> 28) % 2) as u32;
             let started = if phase == Phase::Handshake {
@@ -683,6 +821,7 @@ pub fn run(ctx: &Ctx, phase: Phase, scenarios: usize) {
                 }
                 Phase::Subscription => phase_subscription(&e, &addrs),
                 Phase::ModeTicks => phase_mode_ticks(&e, &addrs, classic),
+                Phase::WeakStats => phase_weak_stats(&e, &addrs),
                 Phase::ReloadEarly => phase_reload_early(&e, &addrs[..n_links - 1], addrs[n_links - 1], base + 30),
                 Phase::Handshake => phase_handshake(&e, &addrs, lost_reg1, (z >> 30) & 1 == 1),
                 Phase::Recovery => phase_recovery(&e, &addrs, recovery_timeout, 8),
